@@ -44,11 +44,97 @@ def _hex_bounds(s: Shape) -> tuple[int, int | None] | None:
     return None
 
 
+def _finite_strings(s: Shape, cap: int = 4096) -> "list[str] | None":
+    """All strings of a shape when it denotes a small finite language (literals, alternations, concatenations)."""
+    if s.kind == "lit":
+        return [s.text]
+    if s.kind == "alt":
+        out: list[str] = []
+        for i in s.items:
+            sub = _finite_strings(i, cap)
+            if sub is None:
+                return None
+            out += sub
+            if len(out) > cap:
+                return None
+        return sorted(set(out))
+    if s.kind == "cat":
+        acc = [""]
+        for i in s.items:
+            sub = _finite_strings(i, cap)
+            if sub is None:
+                return None
+            acc = [a + b for a in acc for b in sub]
+            if len(acc) > cap:
+                return None
+        return acc
+    return None
+
+
+def _fixed_width(s: Shape) -> "int | None":
+    if s.kind == "lit":
+        return len(s.text)
+    if s.kind == "set":
+        return 1
+    if s.kind == "cat":
+        ws = [_fixed_width(i) for i in s.items]
+        return None if any(w is None for w in ws) else sum(ws)  # type: ignore[arg-type]
+    if s.kind == "alt":
+        ws = {_fixed_width(i) for i in s.items}
+        return ws.pop() if len(ws) == 1 and None not in ws else None
+    if s.kind == "rep":
+        w = _fixed_width(s.items[0])
+        return w * s.lo if w is not None and s.lo == s.hi else None
+    return None
+
+
+def _slice_shape(s: Shape, lo: int, hi: "int | None") -> "Shape | None":
+    """s[lo:hi] for a concatenation of fixed-width segments, when the cut points fall on segment boundaries."""
+    if s.kind == "alt":
+        parts = [_slice_shape(i, lo, hi) for i in s.items]
+        return None if any(x is None for x in parts) else Alt(*parts)  # type: ignore[arg-type]
+    items = list(s.items) if s.kind == "cat" else [s]
+    pos = 0
+    out: list[Shape] = []
+    for it in items:
+        w = _fixed_width(it)
+        if w is None:
+            # an open-ended tail can be kept whole only if the slice is open-ended too and starts before it
+            if hi is None and pos >= lo:
+                out.append(it)
+                pos = 10**9
+                continue
+            return None
+        a, b = pos, pos + w
+        pos = b
+        if b <= lo or (hi is not None and a >= hi):
+            continue
+        if a >= lo and (hi is None or b <= hi):
+            out.append(it)
+            continue
+        # the cut falls inside this segment: only literals and uniform repetitions can be cut
+        if it.kind == "lit":
+            out.append(Lit(it.text[max(lo - a, 0) : (None if hi is None else hi - a)]))
+        elif it.kind == "rep" and it.lo == it.hi and _fixed_width(it.items[0]) == 1:
+            n = (min(b, hi) if hi is not None else b) - max(a, lo)
+            out.append(Rep(it.items[0], n, n))
+        else:
+            fin = _finite_strings(it)
+            if fin is None:
+                return None
+            out.append(Alt(*[Lit(x[max(lo - a, 0) : (None if hi is None else hi - a)]) for x in fin]))
+    return Cat(*out) if out else Lit("")
+
+
+CALENDAR = {"sec": (0, 59), "min": (0, 59), "hour": (0, 23), "mday": (1, 31), "mon": (1, 12), "year": (1, 9999), "wday": (0, 6), "yday": (1, 366)}
+
+
 class Interp:
-    def __init__(self, ctx: Ctx, f: FuncInfo, depth: int = 0) -> None:
+    def __init__(self, ctx: Ctx, f: FuncInfo, depth: int = 0, bind: "dict[str, Any] | None" = None) -> None:
         self.ctx = ctx
         self.f = f
         self.depth = depth
+        self.bind = dict(bind or {})  # parameters fixed to constants by the call site (branches on them are folded)
         self.returns: list[Shape] = []
         self.ranges: dict[str, tuple[float, float]] = {}  # numeric ranges established by `if <out of range>: raise` guards
         self.calls: list[tuple[ast.Call, dict[str, Shape]]] = []  # from_attrs call sites with the env at that point
@@ -75,6 +161,9 @@ class Interp:
                     for n in ast.walk(t):
                         if isinstance(n, ast.Name):
                             env[n.id] = Unknown(f"{n.id}: tuple assignment")
+            elif isinstance(st, ast.If) and self._fold_bool(st.test) is not None:
+                if not self._block(st.body if self._fold_bool(st.test) else st.orelse, env):
+                    return False
             elif isinstance(st, ast.If):
                 e1, e2 = dict(env), dict(env)
                 saved = dict(self.ranges)
@@ -114,6 +203,22 @@ class Interp:
             elif isinstance(st, ast.Expr):
                 self._note_calls(st.value, env)
         return True
+
+    def _fold_bool(self, t: ast.expr) -> "bool | None":
+        """Truth of a test that only involves parameters the call site fixed to constants (None = unknown)."""
+        if isinstance(t, ast.Name) and t.id in self.bind:
+            return bool(self.bind[t.id])
+        if isinstance(t, ast.UnaryOp) and isinstance(t.op, ast.Not):
+            v = self._fold_bool(t.operand)
+            return None if v is None else not v
+        if isinstance(t, ast.Compare) and len(t.ops) == 1 and isinstance(t.left, ast.Name) and t.left.id in self.bind and isinstance(t.comparators[0], ast.Constant):
+            a, b = self.bind[t.left.id], t.comparators[0].value
+            op = t.ops[0]
+            if isinstance(op, (ast.Is, ast.Eq)):
+                return a is b if isinstance(op, ast.Is) else a == b
+            if isinstance(op, (ast.IsNot, ast.NotEq)):
+                return a is not b if isinstance(op, ast.IsNot) else a != b
+        return None
 
     def _num(self, e: ast.expr) -> float | None:
         try:
@@ -158,7 +263,12 @@ class Interp:
 
     def _range(self, e: ast.expr) -> tuple[float, float] | None:
         if isinstance(e, ast.Name):
-            return self.ranges.get(e.id)
+            if e.id in self.ranges:
+                return self.ranges[e.id]
+            # a field of a time tuple: the function's parameters are bound from `*<x>.timetuple()` at its only call site
+            if e.id in CALENDAR and self._bound_from_timetuple():
+                return (float(CALENDAR[e.id][0]), float(CALENDAR[e.id][1]))
+            return None
         if isinstance(e, ast.Call) and isinstance(e.func, ast.Name) and e.func.id in ("int", "round") and e.args:
             r = self._range(e.args[0])
             return (float(int(r[0])), float(int(r[1]))) if r else None
@@ -174,6 +284,12 @@ class Interp:
                     if a is e.left:
                         return (r[0] - k, r[1] - k)
         return None
+
+    def _bound_from_timetuple(self) -> bool:
+        if not hasattr(self, "_tt"):
+            sites = self.ctx.cg.callers_of(self.f)
+            self._tt = bool(sites) and all(isinstance(s2.node, ast.Call) and len(s2.node.args) == 1 and isinstance(s2.node.args[0], ast.Starred) and norm(s2.node.args[0].value).endswith(".timetuple()") for s2 in sites)
+        return self._tt
 
     def _note_calls(self, e: ast.expr, env: dict[str, Shape]) -> None:
         for n in ast.walk(e):
@@ -215,13 +331,42 @@ class Interp:
                     n = TOP
                 if isinstance(n, int) and not isinstance(n, bool):
                     return Rep(self.shape(s_e, env), n, n)
+            for s_e, n_e in ((e.left, e.right), (e.right, e.left)):
+                if isinstance(n_e, ast.IfExp) and self._fold_bool(n_e.test) is not None:
+                    try:
+                        cnt = self.ctx.consts.eval_in(self.f, n_e.body if self._fold_bool(n_e.test) else n_e.orelse)
+                    except Exception:
+                        cnt = None
+                    if isinstance(cnt, int):
+                        return Rep(self.shape(s_e, env), cnt, cnt)
+                if isinstance(n_e, ast.IfExp):
+                    try:
+                        a, b = self.ctx.consts.eval_in(self.f, n_e.body), self.ctx.consts.eval_in(self.f, n_e.orelse)
+                    except Exception:
+                        continue
+                    if isinstance(a, int) and isinstance(b, int):
+                        base = self.shape(s_e, env)
+                        return Alt(Rep(base, a, a), Rep(base, b, b))
             return Unknown(f"string repetition by a computed count: {norm(e)[:40]}")
         if isinstance(e, ast.IfExp):
+            fb = self._fold_bool(e.test)
+            if fb is not None:
+                return self.shape(e.body if fb else e.orelse, env)
             return Alt(self.shape(e.body, env), self.shape(e.orelse, env))
         if isinstance(e, ast.BoolOp) and isinstance(e.op, ast.Or):
             return Alt(*[self.shape(v2, env) for v2 in e.values])
+        if isinstance(e, ast.Subscript) and not isinstance(e.slice, ast.Slice) and isinstance(e.value, ast.Dict):
+            # {False: '00', True: 'C8'}[x]: one of the values
+            vals = [self.shape(v2, env) for v2 in e.value.values]
+            return Alt(*vals) if vals else Unknown("empty dict display")
         if isinstance(e, ast.Subscript) and isinstance(e.slice, ast.Slice):
             base = self.shape(e.value, env)
+            lo_c = 0 if e.slice.lower is None else (e.slice.lower.value if isinstance(e.slice.lower, ast.Constant) and isinstance(e.slice.lower.value, int) else None)
+            hi_c = None if e.slice.upper is None else (e.slice.upper.value if isinstance(e.slice.upper, ast.Constant) and isinstance(e.slice.upper.value, int) else -1)
+            if not is_unknown(base) and lo_c is not None and lo_c >= 0 and (hi_c is None or hi_c >= 0) and e.slice.step is None:
+                cut = _slice_shape(base, lo_c, hi_c)
+                if cut is not None:
+                    return cut
             b = _hex_bounds(base)
             lo_e, hi_e = e.slice.lower, e.slice.upper
             if b is not None and lo_e is None and isinstance(hi_e, ast.Constant) and isinstance(hi_e.value, int) and hi_e.value >= 0:
@@ -251,10 +396,20 @@ class Interp:
         if m:
             w = int(m.group(1))
             self.hexfmt += 1
+            # int(<finite shape>, 16) | FLAG  ->  the flagged values
+            pv = p.value
+            if isinstance(pv, ast.BinOp) and isinstance(pv.op, (ast.BitOr, ast.BitAnd, ast.Add)) and isinstance(pv.left, ast.Call) and norm(pv.left.func) == "int" and len(pv.left.args) == 2 and norm(pv.left.args[1]) == "16":
+                k = self._num(pv.right)
+                fin = _finite_strings(self.shape(pv.left.args[0], env))
+                if k is not None and fin is not None and all(re.fullmatch(r"[0-9A-F]+", x) for x in fin):
+                    op = pv.op
+                    vals = sorted({(int(x, 16) | int(k)) if isinstance(op, ast.BitOr) else ((int(x, 16) & int(k)) if isinstance(op, ast.BitAnd) else int(x, 16) + int(k)) for x in fin})
+                    if all(v < 16**w for v in vals):
+                        return retag(Cat(Alt(*[Lit(f"{v:0{w}X}") for v in vals])), "hexfmt:" + norm(p.value)[:40])
             r = self._range(p.value)
             if r is not None and r[0] >= 0 and r[1] - r[0] <= 4096 and r[1] < 16**w:
-                return Alt(*[Lit(f"{v:0{w}X}") for v in range(int(r[0]), int(r[1]) + 1)])
-            return Hex(w)  # exact modulo the codec's representable range (C04.R5's job)
+                return retag(Cat(Alt(*[Lit(f"{v:0{w}X}") for v in range(int(r[0]), int(r[1]) + 1)])), "hexfmt:" + norm(p.value)[:40])
+            return retag(Cat(Hex(w)), "hexfmt:" + norm(p.value)[:40])  # exact modulo the codec's representable range (C04.R5's job)
         m = re.fullmatch(r"0?(\d*)d", spec)
         if m:
             r = self._range(p.value)
@@ -292,6 +447,17 @@ class Interp:
             return self.shape(fn.value, env)
         if isinstance(fn, ast.Name) and fn.id == "str" and e.args:
             return self.shape(e.args[0], env)
+        # <ATTR_DICT>._hex(x): one of the main table's codes (summary of const.AttrDict._hex, guarded by consteval's digest)
+        if isinstance(fn, ast.Attribute) and fn.attr == "_hex" and isinstance(fn.value, ast.Name):
+            try:
+                tab = self.ctx.consts.eval_in(self.f, fn.value)
+            except Exception:
+                tab = TOP
+            mt = getattr(tab, "_main_table", None)
+            if isinstance(mt, dict):
+                codes = sorted({k for t2 in mt.values() if isinstance(t2, dict) for k in t2 if isinstance(k, str) and k[:1] != "_"})
+                if codes:
+                    return Alt(*[Lit(c) for c in codes])
         # a repo function returning str: the alternation of the shapes of its return expressions
         site = self.ctx.cg.site_of.get(id(e))
         if site is not None and site.callees and self.depth < 3:
@@ -299,7 +465,29 @@ class Interp:
             for c in site.callees:
                 if c.is_async or c.cls is not None and c.name in ("from_attrs", "_from_attrs"):
                     return Unknown(f"call of {c.short}")
-                sub = Interp(self.ctx, c, self.depth + 1)
+                bind: dict[str, Any] = {}
+                pnames = [a.arg for a in c.node.args.posonlyargs + c.node.args.args]
+                if pnames and pnames[0] in ("self", "cls") and isinstance(fn, ast.Attribute):
+                    pnames = pnames[1:]
+                for pn, a in zip(pnames, e.args):
+                    if isinstance(a, ast.Constant):
+                        bind[pn] = a.value
+                    elif isinstance(a, ast.Name) and a.id in self.bind:
+                        bind[pn] = self.bind[a.id]
+                for kw in e.keywords:
+                    if kw.arg and isinstance(kw.value, ast.Constant):
+                        bind[kw.arg] = kw.value.value
+                    elif kw.arg and isinstance(kw.value, ast.Name) and kw.value.id in self.bind:
+                        bind[kw.arg] = self.bind[kw.value.id]
+                # parameters left at their constant defaults
+                dargs = c.node.args
+                dflt = dict(zip([a.arg for a in (dargs.posonlyargs + dargs.args)][-len(dargs.defaults):] if dargs.defaults else [], dargs.defaults))
+                dflt.update({a.arg: d for a, d in zip(dargs.kwonlyargs, dargs.kw_defaults) if d is not None})
+                given = set(bind) | {pn for pn, _a in zip(pnames, e.args)} | {kw.arg for kw in e.keywords if kw.arg}
+                for pn, d in dflt.items():
+                    if pn not in given and isinstance(d, ast.Constant):
+                        bind[pn] = d.value
+                sub = Interp(self.ctx, c, self.depth + 1, bind=bind)
                 sub.run()
                 self.decimal += sub.decimal
                 self.hexfmt += sub.hexfmt
@@ -311,6 +499,26 @@ class Interp:
                 res = retag(res, "_check_idx")
             return res
         return Unknown(f"call {norm(fn)[:40]}")
+
+
+def _tagged_columns(shape: Shape, prefix: str) -> "list[tuple[int, int, str]]":
+    """(lo, hi, tag) of the tagged fixed-position segments of a concatenation (alternations: columns common to all branches)."""
+    if shape.kind == "alt":
+        sets = [set(_tagged_columns(i, prefix)) for i in shape.items]
+        return sorted(set.intersection(*sets)) if sets else []
+    out: list[tuple[int, int, str]] = []
+    pos = 0
+    items = list(shape.items) if shape.kind == "cat" and not shape.tag else [shape]
+    for it in items:
+        w = _fixed_width(it)
+        if w is None:
+            break
+        if it.tag.startswith(prefix):
+            out.append((pos, pos + w, it.tag))
+        elif it.kind == "cat":
+            out += [(pos + a, pos + b, t) for a, b, t in _tagged_columns(Shape("cat", items=it.items), prefix)]
+        pos += w
+    return out
 
 
 def _accepted_idx(shape: Shape, regex_d: Any) -> list[int]:
@@ -350,6 +558,7 @@ def shape_rule(ctx: Ctx) -> RuleResult:
     idx_sig: list[str] = []
     n_regex = 0
     n_hexfmt = 0
+    seen_pairs: set[tuple[int, int]] = set()
     for code, row in schema.items():
         for verb in (" I", "RQ", "RP", " W"):
             if verb in row:
@@ -421,6 +630,31 @@ def shape_rule(ctx: Ctx) -> RuleResult:
                 undecided.append(f"{name}: verb/code not constant")
                 continue
             shape = it.shape(p_expr, env)
+            # codec pairing with the decoder: a numeric field this constructor writes in hex (`{x:02X}`) at fixed columns must not
+            # be read back by parser_<code> with a base-10 int() of the same columns
+            if not is_unknown(shape):
+                cols = _tagged_columns(shape, "hexfmt:")
+                for code in sorted(codes):
+                    pf = repo.funcs.get(f"ramses_tx.parsers.parser_{code.lower()}")
+                    if pf is None or not cols:
+                        continue
+                    for n in ast.walk(pf.node):
+                        if isinstance(n, ast.Call) and isinstance(n.func, ast.Name) and n.func.id == "int" and len(n.args) == 1 and not n.keywords and isinstance(n.args[0], ast.Subscript) and norm(n.args[0].value) == "payload" and isinstance(n.args[0].slice, ast.Slice):
+                            sl = n.args[0].slice
+                            a = 0 if sl.lower is None else getattr(sl.lower, "value", None)
+                            b = getattr(sl.upper, "value", None)
+                            if not isinstance(a, int) or not isinstance(b, int):
+                                continue
+                            for lo, hi, what in cols:
+                                if a < hi and lo < b and (id(n), lo) not in seen_pairs:
+                                    seen_pairs.add((id(n), lo))
+                                    rr.instances += 1
+                                    rr.nontrivial += 1
+                                    rr.fail(
+                                        f"parser_{code.lower()}:base10-read:{norm(n)[:40]}",
+                                        pf.loc(n),
+                                        f"Command.{name} writes `{what.split(':', 1)[1]}` in hexadecimal at payload columns {lo}:{hi}, but parser_{code.lower()} reads columns {a}:{b} with `{norm(n)}` (base 10): values above 9 decode to another number or are rejected",
+                                    )
             for verb in sorted(verbs):
                 for code in sorted(codes):
                     rr.instances += 1
